@@ -81,7 +81,7 @@ def run_watchdog(cmd, outfiles, timeout, stall):
     return rc, se
 
 
-def run_batch(exe, P, lines, tag, timeout, threads=1, stall=40):
+def run_batch(exe, P, lines, tag, timeout, threads=1, stall=90):
     """returns (results, runs): results[i] = list of P rank lines | ("HANG"|"CRASH rc", partial rank lines, stderr tail) |
     ("SKIPPED",..). After a failure the rest of the batch is run in a fresh job."""
     wd = os.path.join(lib.BUILD, "c04run")
@@ -400,7 +400,7 @@ def check(tier, seed):
             need = min(P, 16)
             for _ in range(need): sem.acquire()
             try:
-                res = run_batch(exe, P, [x[0] for x in cases], tag, wd, threads, stall=(40 if tier == "quick" else 120))
+                res = run_batch(exe, P, [x[0] for x in cases], tag, wd, threads, stall=(90 if tier == "quick" else 150))
             finally:
                 for _ in range(need): sem.release()
             J.judge_batch(P, cases, res, tier, exact=(threads == 1))      # several TBB threads: schedule-dependent ties, judged only
